@@ -10,10 +10,12 @@ Catalogs == << <<>>,
                << [name |-> Tn, version |-> 1, syms |-> <<X, Y>>] >>,
                << [name |-> Tn, version |-> 1, syms |-> <<X, Y>>], [name |-> Tn, version |-> 2, syms |-> <<X, Y, Z>>] >>,
                << [name |-> Tn, version |-> 2, syms |-> <<X, Y, Z>>] >>,
-               << [name |-> Tn, version |-> 1, syms |-> <<X>>], [name |-> Un, version |-> 1, syms |-> <<Q>>] >> >>
+               << [name |-> Tn, version |-> 1, syms |-> <<X>>], [name |-> Un, version |-> 1, syms |-> <<Q>>] >>,
+               \* registered newest first: the latest version is the highest, not the last one registered
+               << [name |-> Tn, version |-> 2, syms |-> <<X, Y, Z>>], [name |-> Tn, version |-> 1, syms |-> <<X, Y>>] >> >>
 D(n, v, m) == [name |-> n, version |-> v, max |-> m]
 ImportLists == << <<>>, <<D(Tn, 1, 2)>>, <<D(Tn, 2, 3)>>, <<D(Tn, 1, -1)>>, <<D(Tn, 1, 4)>>, <<D(Tn, 1, 1)>>,
-                  <<D(Un, 1, 2)>>, <<D(Tn, 1, 2), D(Un, 1, 1)>>, <<D(Tn, 3, 0)>> >>
+                  <<D(Un, 1, 2)>>, <<D(Tn, 1, 2), D(Un, 1, 1)>>, <<D(Tn, 3, 0)>>, <<D(Tn, 3, 3)>> >>
 SymLists == << <<>>, <<P>>, <<P, X>>, <<GapNull, P>>, <<P, GapInt, X>> >>
 Sids == <<0, 4, 9, 10, 11, 12, 13, 14, 15>>
 
